@@ -188,6 +188,46 @@ PL_CORPUS = ["1,8,2;1,1;1,2;2;4", "1,8,2;4;1,1;4;1,2;2;4", "0,0,0;4;1,1;4;1,2;1,
              "1,100,0;2;4", "3,0,3;5;4"]
 
 
+from props import C07 as _LIFE
+
+
+class AbandonPart(_LIFE.PlStopPart):
+    """peer's view of a connection whose application abandons a streamed payload: nothing but the PUBLISH, its payload
+    and a PINGREQ was sent and nothing closed the connection, so it must stay open without a Stop notification
+    (clause 24), and once the whole payload, the PINGREQ and the handler's completion have happened the peer holds
+    exactly one PUBACK and one PINGRESP per PINGREQ (clause 25)"""
+
+    def py_oracle(self, case, obs):
+        if obs == "9999":
+            return "0,21,0"
+        if obs in ("9998", "9997"):
+            return "1"
+        try:
+            cfg, ops, steps = self._parse(case, obs)
+        except (ValueError, IndexError):
+            return "1"
+        if any(o and o[0] in (3, 4, 5, 6) for o in ops):
+            return "1"
+        declared = min(cfg[2], 1024)
+        sent, header, pinged, done = 0, False, 0, False
+        got = []
+        for i, (o, st) in enumerate(zip(ops, steps)):
+            if o[:1] == [1] and not header and len(o) == 2:
+                header, sent = True, min(o[1], declared)
+            elif o[:1] == [2] and header and len(o) == 2:
+                sent = min(declared, sent + o[1])
+            elif o == [9] and header and sent == declared:
+                pinged += 1
+            elif o == [8]:
+                done = True
+            got += st[4:]
+            if st[2] != 0 or st[3] != 1:
+                return "0,24,%d" % i
+        if header and pinged and done and sent == declared and sorted(got) != [64] + [208] * pinged:
+            return "0,25,%d" % (len(ops) - 1)
+        return "1"
+
+
 def parts(tier, rng):
     n3 = cc.sized(tier, 60, 600)
     n5 = cc.sized(tier, 25, 250)
@@ -206,10 +246,21 @@ def parts(tier, rng):
         res.append(PlPart("payload-" + name, "payload", (PL_CORPUS if first else []) + cases, shards=16,
                           rule="Payload::read()/read_all() under feed / eof / error / poll / take schedules: " + name))
         first = False
+    # connection level, a reader that abandons the payload: the rest of the payload and the packets after it are
+    # decoded and handled as for any other way of reading -- for every way of cutting the payload into pieces
+    # (engines plstop3 / plstop5, operation 10)
+    import gen_plstop as GPS
+    from props import C07 as LIFE
+    for eng in ("plstop3", "plstop5"):
+        res.append(AbandonPart("abandoned-payload-" + eng[-1], eng, GPS.abandoned(rng, 300 if tier == "quick" else 3000),
+                               shards=16, rule="PUBLISH header, payload pieces, the reader dropped at every point, "
+                                               "PINGREQ after the payload, handler completion"))
     return res
 
 
 def replay_parts(rp):
+    if rp.get("engine", "").startswith("plstop"):
+        return [AbandonPart("replay", rp["engine"], [rp["case"]], shards=1)]
     if rp.get("engine", "").startswith("sized"):
         from props import C12 as LIM
         return [LIM.SizedPart("replay", rp["engine"], [rp["case"]], shards=1)]
@@ -227,6 +278,10 @@ cc.DEC_CLAUSES["11"] = ("the packets (payload pieces glued) obtained from this f
                         "another fragmentation of the same byte stream")
 
 
+cc.DEC_CLAUSES["24"] = ("the application abandoned a streamed payload and the connection was ended (Stop / closed) "
+                        "although the peer sent nothing but the PUBLISH, its payload and a PINGREQ")
+cc.DEC_CLAUSES["25"] = ("after an abandoned payload the peer does not hold exactly one PUBACK and one PINGRESP per PINGREQ although "
+                        "the whole payload, the PINGREQ and the handler's completion have happened")
 cc.DEC_CLAUSES["21"] = "panic while reading the payload"
 cc.DEC_CLAUSES["22"] = "the handler holds bytes that are not a prefix of the payload bytes sent (lost, duplicated or reordered)"
 cc.DEC_CLAUSES["23"] = "the reader finished Ok after the final chunk but does not hold every byte of the payload"
